@@ -11,6 +11,7 @@ pub mod c07;
 pub mod c08;
 pub mod c09a;
 pub mod c09b;
+pub mod c14;
 pub mod c15;
 pub mod c15b;
 pub mod c18;
@@ -44,6 +45,7 @@ pub fn run(ctx: &Ctx) -> Option<Report> {
         }
         "C10" => Some(brackets::run(ctx, true)),
         "C11" => Some(brackets::run(ctx, false)),
+        "C14" => Some(c14::run(ctx)),
         "C15" => {
             let mut r = c15::run(ctx);
             if r.violations.is_empty() {
@@ -95,6 +97,7 @@ pub fn replay(ctx: &Ctx, case: &Value) -> Option<Report> {
         }
         "C10" => Some(brackets::replay(ctx, case, true)),
         "C11" => Some(brackets::replay(ctx, case, false)),
+        "C14" => Some(c14::replay(ctx, case)),
         "C15" => {
             if case.get("half").and_then(|h| h.as_str()) == Some("c15b") {
                 Some(c15b::replay(ctx, case))
